@@ -21,7 +21,11 @@ def limit_cases(rng, tier):
                     ('dimension-count', [126, 127, 128, 200]), ('points', [254, 255, 256] if tier == 'quick' else [254, 255, 256, 300]),
                     ('channels', [254, 255, 256]), ('last-frame', [65534, 65535, 65536]), ('groups', [126, 127, 128]),
                     ('string-width', [254, 255, 256]), ('parameter-blocks', [254, 255, 256] if tier != 'quick' else [255]),
-                    ('frames', [32766, 32767, 32768] if tier != 'quick' else []), ('record-bytes', [65032, 65287, 65797])):
+                    ('frames', [32766, 32767, 32768] if tier != 'quick' else []), ('record-bytes', [65032, 65287, 65797]),
+                    # a record whose next-record offset crosses 2^15 (it is an UNSIGNED 16-bit word), with records after it
+                    ('record-offset', [32767, 32768, 32769, 40000]),
+                    # a parameter section that ends exactly on a block boundary (every residue modulo 512 once), with data after it
+                    ('section-end-modulo-512', list(range(512)))):
         for v in vals:
             if L == 'description': lines = P(b'D', b'd' * v, 'P.set I 0 1 1')
             elif L == 'group-and-param-name': lines = P(nm(v, b'N'), b'', 'P.set I 0 1 1', nm(v, b'G'))
@@ -33,6 +37,16 @@ def limit_cases(rng, tier):
                 else:
                     k = 128 if v == 65287 else 129
                     lines = P(b'BIGINT', b'', 'P.set I 2 255 %d %d %s' % (k, 255 * k, ' '.join(str((i * 7) % 32768) for i in range(255 * k))))
+            elif L == 'record-offset':
+                # offset word = 2 + type,ndims (2) + dims (2) + 510 k + description length byte (1) + d
+                k = 64 if v < 40000 else 78; d = v - (510 * k + 7)
+                lines = P(b'TABLE', b'd' * d, 'P.set I 2 255 %d %d %s' % (k, 255 * k, ' '.join(str((i * 7) % 32768) for i in range(255 * k))), b'BIG')
+                lines += P(b'AFTER', b'', 'P.set I 0 1 7', b'BIG') + P(b'LAST', b'', 'P.set F 0 2 3f800000 bf800000', b'LATER')
+            elif L == 'section-end-modulo-512':
+                a = min(v, 255); b = min(v - a, 255); c_ = v - a - b
+                lines = ['point 0 x61', 'P.new %s x' % hx(b'RATE'), 'P.set F 0 1 42c80000', 'param 0 ' + hx(b'POINT'),
+                         'frame 0 - 1 x61 3dcccccd 40000000 40400000 3c23d70a 0']
+                lines += P(b'NOTE', b'a' * a, 'P.set I 0 1 1') + P(b'NOTE2', b'b' * b, 'P.set I 0 1 2') + P(b'NOTE3', b'c' * c_, 'P.set I 0 1 3')
             elif L == 'string-width': lines = P(b'WIDE', b'', 'P.set S 0 2 %s %s' % (hx(b'w' * v), hx(b'x')))
             elif L == 'groups': 
                 lines = []
@@ -65,7 +79,8 @@ def limit_cases(rng, tier):
 
 LIMITS = {'description': 255, 'group-and-param-name': 127, 'dimension-entries': 255, 'int16': 32767, 'int16-neg': -32768, 'dimension-count': 127,
           'points': 255, 'channels': 255, 'groups': 127, 'string-width': 255, 'parameter-blocks': 255, 'frames': 32767,
-          'pair:description+name': 255, 'pair:dimension+strings': 255, 'record-bytes': 65535}
+          'pair:description+name': 255, 'pair:dimension+strings': 255, 'record-bytes': 65535, 'record-offset': 65535,
+          'section-end-modulo-512': 511}
 
 def run(rep, work, rng, tier):
     common.proof_part(rep, 'C17')
